@@ -25,6 +25,7 @@ type MAlloc struct {
 	Relay   *net.UDPAddr // learnt from the success response
 	Exp     time.Time
 	Granted time.Duration
+	Granted0 time.Duration // lifetime granted by the Allocate itself (what a retransmission repeats)
 	Tx      [12]byte
 	Perms   map[string]time.Time // peer IP -> expiry
 	Chans   map[uint16]*MChan
